@@ -1,6 +1,7 @@
 package rules
 
 import (
+	"fmt"
 	ssa "xvc/xssa"
 
 	"xvc/q"
@@ -25,6 +26,22 @@ func c16(c *q.Ctx) {
 	if co := c.Fn("bcs/consensus/tdpos::(*tdposSchedule).CalOldProposers"); co != nil {
 		tip := "i:BlockHandle.GetHeight(i:LedgerRely.GetTipBlock(p0.ledger))"
 		c.Effect(co, q.Eff{Spec: "tdposSchedule.calHisValidators", Arg: 0, Glob: "p1", Req: []q.Cond{{Canon: "(p1 < " + tip + ")", Sense: true}}, Why: "history is read for the candidate's own height only when the ledger has a block ABOVE it", Rule: "K5"})
+	}
+	// the term of a historical block started pos*blockNum + blockPos blocks before it at most (pos producers before
+	// this one each made blockNum blocks): the backward search for the term's first block starts there
+	if ch := c.Fn("bcs/consensus/tdpos::(*tdposSchedule).calHisValidators"); ch != nil {
+		blk := "i:LedgerRely.QueryBlockByHeight(p0.ledger,p1)#0"
+		ms := "tdpos.(*tdposSchedule).minerScheduling(p0,i:BlockHandle.GetTimestamp(" + blk + "))"
+		c.CondCount(ch, "(p0.startHeight < (i:BlockHandle.GetHeight("+blk+") - ((p0.blockNum * "+ms+"#1) + "+ms+"#2)))", 1, "the search window reaches back to the earliest block the term can have")
+	}
+	// compact difficulty encoding: the 0x00800000 bit of the mantissa is the SIGN bit; a mantissa that has it set is
+	// shifted down one byte - decided by a mask on that bit, not by the magnitude of the mantissa (every 3-byte
+	// mantissa above 0x800000 has the bit set, but so does 0x800000 itself, and larger values without it do not exist
+	// only by accident of the preceding shift)
+	if gc := c.Fn("bcs/consensus/pow::GetCompact"); gc != nil {
+		n := len(q.CondEdges(gc, q.Cond{Canon: "(0 < (8388608 & *))", Sense: true})) + len(q.CondEdges(gc, q.Cond{Canon: "(0 == (8388608 & *))", Sense: true}))
+		c.Sites += n
+		c.Check(n == 1, "K5", "bcs/consensus/pow::GetCompact", "the mantissa is renormalised on its sign bit (mask 0x00800000)", "-", fmt.Sprintf("found %d mask test(s)", n))
 	}
 	blockAgentHashes(c)
 	// ---- TDPoS
